@@ -66,6 +66,10 @@ category: Ordered
 match: is_big
 category: Big
 tags: large
+
+[OrderedItem]
+match: any(r.amount == amount and r.item == "Book" for r in orders)
+category: OrderedBook
 '''
 B_RULES = '''is_big = amount > 1000
 is_wire = field.type == "ACH"
@@ -112,7 +116,9 @@ TXNS = [
     {"description": "SQ *NETFLIX", "amount": 150.0, "date": None, "field": {"type": "ach"}, "source": None},
     {"description": "ABC", "amount": 99.75, "date": "2025-03-01", "field": {"type": "WIRE"}, "source": "Bank"},
 ]
-ORDERS = {"orders": [{"item": "Book", "amount": 99.75, "date": dt.date(2025, 3, 1)}, {"item": "Pen", "amount": 0.25, "date": dt.date(2025, 2, 1)}]}
+ORDERS = {"orders": [{"item": "Book", "amount": 99.75, "date": dt.date(2025, 3, 1)}, {"item": "Pen", "amount": 0.25, "date": dt.date(2025, 2, 1)},
+                     # a ragged row (short line of the supplemental file): no "item" cell. [OrderedItem] reads r.item on it for the 500.00 transaction
+                     {"amount": 500.0, "date": dt.date(2025, 2, 2)}]}
 EXPRS = ['regex("^\\\\d+$")', 'regex("^\\\\D+$")', 'description.replace("a", "b") + extract("^(\\\\d+)$")',
          'description.replace("A", "b") + extract("^(\\\\D+)$")',
          # binds a name with := ; the next one reads that name without binding it (unknown in a fresh process)
